@@ -1,7 +1,7 @@
 #!/bin/bash
 # re-run every stored seeded regression against its check (quick tier); prints one RESULT line each
 cd /verif
-for d in seeded/*/; do
+for d in seeded/[A-Z]*/; do
   prop=$(python3 -c "import json,sys; print(json.load(open('$d/meta.json'))['property'])")
   tools/try_mutation.sh $d $prop 2>&1 | grep "^RESULT"
 done
